@@ -25,6 +25,7 @@ from . import bodygen as bg
 from . import known, tlc
 
 AMTS = [1, 2, 3, 7, 64, 1000]
+JOBS = max(1, int(os.environ.get("VERIF_JOBS") or os.cpu_count() or 4))     # size of every pool / TLC worker set
 
 MC_CFG = """SPECIFICATION {spec}
 CONSTANTS
@@ -66,23 +67,32 @@ DEFECT_CLAUSES = {
 
 
 def cfg(**kw):
-    d = dict(spec="Spec", sc="ScC12Tiny", dk="OnlyNone", lag=1, amts="A1237", amts1="A27", into="A3", gen="A27",
+    d = dict(spec="Spec", sc="ScC12Tiny", dk="OnlyNone", lag=3, amts="A1237", amts1="A27", into="A3", gen="A27",
              maxops=3, after=1, apis="AllApis", kd="NoDefects", k=1, s=0, body=STAGE1_BODY)
     d.update(kw)
     return MC_CFG.format(**d)
 
 
 # ---------------------------------------------------------------------------------------------- stage 1
-def stage1(rep, plans, workers_each=6):
+def stage1(plans, workers_each=None):
     """plans: list of (name, cfg kwargs, expectation) with expectation None (must hold) or a set of clause names
     (TLC must report a violation and it must be one of them)."""
+    par = 1 if JOBS <= 4 else min(len(plans), 3)             # concurrent JVMs
+    workers_each = workers_each or max(1, JOBS // par)
+
     def one(p):
         name, kw, expect = p
-        r = tlc.run("MC_Body", cfg(**kw), workers=kw.pop("_workers", workers_each), heap="4g",
-                    expect_fail=expect is not None, coverage=kw.pop("_cov", False), timeout=3600)
+        kw = dict(kw)
+        r = tlc.run("MC_Body", cfg(**{k: v for k, v in kw.items() if not k.startswith("_")}),
+                    workers=min(JOBS, kw.get("_workers", workers_each)), heap="3g",
+                    expect_fail=expect is not None, coverage=bool(kw.get("_cov")), timeout=3600)
         return name, kw, expect, r
-    with ThreadPoolExecutor(max(1, min(len(plans), 4))) as ex:
-        outs = list(ex.map(one, plans))
+    with ThreadPoolExecutor(par) as ex:
+        return list(ex.map(one, plans))
+
+
+def account_stage1(rep, outs):
+    """Record the stage-1 results on the report (main thread only)."""
     for name, kw, expect, r in outs:
         rep.add_tlc(name, r)
         if expect is None:
@@ -90,6 +100,8 @@ def stage1(rep, plans, workers_each=6):
                 rep.violation("ModelVsRules", f"stage 1 {name}: TLC reports {r.violated} on the repaired design "
                               f"(KnownDefects = {{}})", {"kind": "stage1", "plan": name})
             cov = {a: r.coverage.get(a) for a in ACTIONS if a in r.coverage}
+            if kw.get("_cov") and not cov:
+                raise tlc.MachineryError(f"stage 1 {name}: TLC printed no action coverage")
             if r.coverage:
                 dead = [a for a in kw.get("_need", ()) if not (r.coverage.get(a) or (0, 0))[1]]
                 if dead:
@@ -109,11 +121,15 @@ def stage1(rep, plans, workers_each=6):
 _PRE = '<<"SC", "'
 
 
-def emit(kw, workers=8):
-    """Run the emission configuration; returns (TLCResult, groups) where groups maps
+def emit(kw, workers=8, kds=("NoDefects", "AllDefects")):
+    """Run the emission configuration once per KnownDefects setting and merge: the repaired design ({}) and the code
+    as it is (all named deviations).  An observation sequence of the real code that lies in neither set is
+    MODEL-DRIFT.  Returns (TLCResult of the first run, groups, number of behaviours) where groups maps
     (framing, coding, stacked, decode, enc, chunks, dmgkind, dmgat, ops) -> {"cls", "allowed": set of obs tuples}."""
     groups = {}
+    prefixes = {}
     n = [0]
+    cur = [None]
 
     def on_line(ln):
         if not ln.startswith(_PRE):
@@ -127,17 +143,33 @@ def emit(kw, workers=8):
         g = groups.get(key)
         if g is None:
             g = groups[key] = {"cls": cls, "allowed": set(), "verdicts": set()}
-        g["allowed"].add(tuple(tuple(e) for e in hist) + (second,))
-        g["verdicts"].add((verdict, final))
+        h = tuple(tuple(e) for e in hist)
+        g["allowed"].add(h + (second,))
+        for jj in range(1, len(h)):                    # every prefix of a behaviour is an allowed observation too
+            prefixes.setdefault(key[:8] + (ops[:jj],), set()).add(h[:jj])
+        if cur[0] == "NoDefects":
+            g["verdicts"].add((verdict, final))
         return True
 
-    r = tlc.run("MC_Body", cfg(body=EMIT_BODY, **kw), workers=workers, heap="4g", on_line=on_line, timeout=7200)
-    if n[0] == 0:
-        raise tlc.MachineryError("emission produced no behaviour")
+    first = None
+    for kd in kds:
+        cur[0] = kd
+        before = n[0]
+        r = tlc.run("MC_Body", cfg(body=EMIT_BODY, **dict(kw, kd=kd)), workers=min(JOBS, workers), heap="3g",
+                    on_line=on_line, timeout=7200)
+        if n[0] == before:
+            raise tlc.MachineryError(f"emission ({kd}) produced no behaviour")
+        if first is None:
+            first = r
+        else:
+            first.wall += r.wall
     for key, g in groups.items():
         if not g["verdicts"] <= {("ok", "ok"), ("ok", "NotDriven")}:     # NotDriven: MaxOps reached mid-body
             raise tlc.MachineryError(f"the repaired-design model emitted a behaviour its own monitor rejects: {key} {g['verdicts']}")
-    return r, groups, n[0]
+    for key, g in groups.items():
+        g["prefix"] = prefixes.get(key, set())
+    groups["__prefixes__"] = prefixes
+    return first, groups, n[0]
 
 
 # ---------------------------------------------------------------------------------------------- realization
@@ -319,12 +351,16 @@ def signature(run, trace, badl, clause, fin):
     layers = coding.split(",")
     e = ev[badl - 1] if 0 < badl <= len(ev) else None
     sig = "other"
-    if clause in ("InOrderNoLossNoDup", "EmptyAfterEnd") and f["dmg"] == "none" and f["decoding"] and e and not e["err"]:
+    if clause in ("InOrderNoLossNoDup", "EmptyAfterEnd") and f["decoding"] and e and not e["err"]:
         first_bad = e["op"]
         partial_before = any(x["op"] in ("readn", "readinto", "read1n", "read1", "stream") and x["len"] > 0
                              for x in ev[:badl - 1])
-        if first_bad == "read" and partial_before:
+        # stream(amt=None) on a body that is not chunked is a loop around read()
+        if (first_bad == "read" or (first_bad == "stream" and e["n"] == 0 and f["framing"] != "chunked")) and partial_before:
             sig = "read-all-after-partial-read-with-content-decoding"
+    if clause == "IntactNeverRaises" and f["decoding"] and e and e["err"] == "raw:Deadline" and e["op"] == "stream" \
+            and e["n"] == 0 and any(x["op"] in ("readn", "readinto", "read1n", "read1") and x["len"] > 0 for x in ev[:badl - 1]):
+        sig = "stream-without-amount-after-partial-read-never-ends"     # read() never drains the stale buffer (D6)
     if clause == "IntactNeverRaises" and e and e["err"] == "DecodeError" and "zstd-mf" in layers \
             and "multiple times" in trace.get("detail", ""):
         sig = "zstd-frame-end-at-feed-boundary"
@@ -382,7 +418,22 @@ def describe(run, trace, badl, clause):
 def execute(run):
     """run: {"case", "ops", "drain", "preload"} -> trace record (bodydrv.run_case)."""
     return bd.run_case(run["case"], [tuple(x) for x in run["ops"]], tuple(run["drain"]) if run.get("drain") else None,
-                       preload=bool(run.get("preload")))
+                       preload=bool(run.get("preload")), deadline=float(run.get("deadline") or 300.0))
+
+
+_JVM_GATE = None
+
+
+def pool_init(gate):
+    """Pool initializer: a semaphore bounding the number of concurrent validation JVMs."""
+    global _JVM_GATE
+    _JVM_GATE = gate
+
+
+def make_pool():
+    import multiprocessing as mp
+    gate = mp.Semaphore(JOBS if JOBS > 4 else 1)
+    return mp.Pool(JOBS, initializer=pool_init, initargs=(gate,))
 
 
 def shard_worker(args):
@@ -398,7 +449,11 @@ def shard_worker(args):
             traces.append(None)
             r["generr"] = str(ex)
     idx = [i for i, t in enumerate(traces) if t is not None]
-    verdicts, _ = validate([traces[i] for i in idx])
+    if _JVM_GATE is not None:
+        with _JVM_GATE:
+            verdicts, _ = validate([traces[i] for i in idx])
+    else:
+        verdicts, _ = validate([traces[i] for i in idx])
     out = []
     for i, v in zip(idx, verdicts):
         t, r = traces[i], runs[i]
@@ -439,7 +494,10 @@ def runs_from_groups(groups, variants, seed):
     rng = random.Random(seed)
     runs = []
     skipped = 0
+    prefixes = groups.get("__prefixes__", {})
     for key, g in groups.items():
+        if key == "__prefixes__":
+            continue
         fr, co, st, de, enc, ch, dk, at, ops = key
         for vi, var in enumerate(variants):
             var = dict(var)
@@ -454,7 +512,8 @@ def runs_from_groups(groups, variants, seed):
                 skipped += 1
                 continue
             scale = var.get("scale", 1)
-            exact = (co == "identity" or not de) and scale == 1 and dk in ("none", "cut", "badsize", "emptysize")
+            exact = co == "identity" and scale == 1 and dk in ("none", "cut", "badsize", "emptysize")
+            comparable = co == "identity" or de          # raw view of a coded body: model units are not bytes
             preload = bool(ops and ops[0][0] == "data")
             real_ops = [(op, n * scale) for op, n in ops]
             gens = [op for op, _ in ops if op in bd.GEN_OPS]
@@ -463,9 +522,15 @@ def runs_from_groups(groups, variants, seed):
             else:
                 drain = ("readn", 997)
             # the model's facts must be the real facts, else its expectation does not transfer
-            keys = {obs_key(scaled(list(h[:-1]), scale), h[-1], scale, exact) for h in g["allowed"]}
+            # a real run stops at the first exception: its observation may be a behaviour of a PREFIX of the ops
+            keys = set()
+            for j in range(1, len(ops) + 1):
+                gj = g if j == len(ops) else groups.get((fr, co, st, de, enc, ch, dk, at, ops[:j]))
+                if gj is not None:
+                    keys |= {obs_key(scaled(list(h[:-1]), scale), h[-1], scale, exact) for h in gj["allowed"]}
+            keys |= {obs_key(scaled(list(h), scale), "*", scale, exact) for h in prefixes.get(key, ())}
             runs.append({"case": case, "ops": real_ops, "drain": drain, "preload": preload, "mcls": g["cls"],
-                         "expect": {"keys": keys, "scale": scale, "exact": exact}, "model": [fr, co, st, de, list(enc), list(ch), dk, at]})
+                         "expect": {"keys": keys, "scale": scale, "exact": exact} if comparable else None, "model": [fr, co, st, de, list(enc), list(ch), dk, at]})
     rng.shuffle(runs)
     return runs, skipped
 
@@ -487,7 +552,7 @@ def run_all(rep, pool, runs, findings, counters, label, per=400):
         counters["generr"] += o["generr"]
         for x in o["out"]:
             run = sh[x["i"]]
-            slim_run = {k: run[k] for k in ("case", "ops", "drain", "preload")}
+            slim_run = {k: run.get(k) for k in ("case", "ops", "drain", "preload", "deadline")}
             rep.traces += 1
             rep.evaluations += x["nev"]
             if x["nontriv"] is not None:
@@ -542,5 +607,5 @@ def replay_case(rep, pid, path):
     rep.nontrivial.update({"replay", "case"})
     rep.states = rep.states or (r.distinct if r else 1)
     rep.transitions = rep.transitions or (r.generated if r else 1)
-    judge(rep, findings, {k: run[k] for k in ("case", "ops", "drain", "preload")}, t, verdicts[0], counters)
+    judge(rep, findings, {k: run.get(k) for k in ("case", "ops", "drain", "preload", "deadline")}, t, verdicts[0], counters)
     finish(rep, counters)
